@@ -26,13 +26,23 @@ from fractions import Fraction
 
 import numpy as np
 
-from harness.core import PropertyCheck
+from harness.core import PropertyCheck, TieBroken
 from harness.util import Snapshot, close, cmp_rats, errname, fr, frs, parse_rats, plist
+from harness.props import c16_spline, c16_tables, c16_views
 
 REPO = os.environ.get("NIPY_VERIF_REPO", "/repo")
 VERIF = os.path.dirname(os.path.dirname(os.path.dirname(os.path.abspath(__file__))))
 BUILD = os.path.join(VERIF, ".build")
-C23 = 0.66666666666667          # the constant written in cubic_spline.c
+def _spline_consts():
+    """the decimal literals written in the tree's cubic_spline.c (fallback: the values of the validated tree)"""
+    try:
+        c, _ = c16_tables.read(TieBroken)
+        return float(c["c23"]), float(c["z1"]), float(c["cz1"])
+    except Exception:
+        return 0.66666666666667, -0.26794919243112, 0.28867513459481
+
+
+C23, Z1, CZ1 = _spline_consts()
 MODES = ["zero", "nearest", "reflect"]
 
 
@@ -266,32 +276,55 @@ def fibres_of(X, axis):
 class C16(PropertyCheck):
     id = "C16"
     title = "Compiled numeric kernels equal their NumPy/SciPy definitions"
-    lean_modules = ["NipyVerif.Props.C16"]
+    lean_modules = ["NipyVerif.Props.C16", "NipyVerif.Props.C16B", "NipyVerif.Props.C16S", "NipyVerif.Props.C16P",
+                    "NipyVerif.Props.C16L", "NipyVerif.Props.C16Q"]
     driver = "Drivers/C16.lean"
     rule = ("cases are (routine, shape 1..4-D, memory layout in {C, Fortran, stepped, reversed, permuted-axes, "
-            "offset window}, dtype, axis, ratio / BLAS flags / boundary modes, dyadic data) from a seeded PRNG; "
+            "offset window}, dtype, axis, ratio / BLAS flags / boundary modes, dyadic data) from a seeded PRNG; the "
+            "`views` kinds run every fff routine that writes through a view on windows of larger parents (vector "
+            "offset/stride/tail; matrix margins with same or different row pitch, contiguous or not, same parent; 4-D "
+            "arrays of every datatype pair with steps, reversed and permuted axes) and compare the whole parent; "
             "non-trivial = at least 2 elements along the processed axis (quantile, iterator), a non-square or "
             "non-contiguous operand (BLAS), an axis of length >= 2 (spline), n >= 3 (permutations); distinct by "
             "full JSON of the case")
     assumptions = [
         "IEEE-754: the C kernels are compared with the exact-rational model to 1e-12 relative (exactly on dyadic data)",
         "lapack_lite reference BLAS/LAPACK (f2c) implement the Fortran semantics written as gemmF/symmF/trmmF/"
-        "IsTrsmF/syrkF in the model; checked per case against the model on every flag combination",
-        "_pth_element/_pth_interval (Hoare partition) return the order statistics: literal model of _pth_element "
-        "compared with the C (value and permuted fibre) per case and exhaustively on arrays of length <= 7 over "
-        "{0,1,2} (thorough); not proved",
-        "cubic-spline prefilter (truncated pole -0.26794919243112) solves the mirror tridiagonal system to 1e-10: "
-        "checked numerically per case; the sampling theorem takes it as a hypothesis",
+        "IsTrsmF/syrkF/gerF/syrF/syr2F/symvF/trmvF/IsTrsvF/syr2kF in the model; checked per case against the model on "
+        "every flag combination; LAPACK factorisations (dpotrf, dgetrf, dgeqrf, dgesdd) are certified by multiplication "
+        "on the real code, their numerics are not modelled",
+        "cubic-spline prefilter: proved exact for the exact pole sqrt(3)-2 in Q(sqrt 3); the C source writes the pole "
+        "and z/(z^2-1) truncated to 14 digits - the model run with those rationals is compared with the C to 1e-11, "
+        "the model run with the exact pole to 1e-9 (the effect of the truncation), and the exact run is decided to "
+        "reproduce the samples per case (n-D)",
+        "the constant 0.66666666666667 of cubic_spline_basis is a parameter of the sampling model (theorems at 2/3)",
         "gamln / psi / singular values / Mahalanobis (Cholesky) are numeric-only: compared with scipy.special / "
-        "numpy.linalg (1e-7 / 1e-9 relative)",
+        "numpy.linalg (1e-7 / 1e-9 relative) and with their recurrences",
+        "integer stores of fff_array (FFF_ROUND): the oracle accepts either nearest integer at a tie; the rule as "
+        "written (ties away from zero) is pinned by the model on every case",
         "installed extension modules are the build of this tree's .pyx files (Cython is unavailable in the sandbox); "
-        "the C of the working tree is observed through gcc-rebuilt libraries and a replica of the pyx glue",
+        "the C of the working tree is observed through gcc-rebuilt libraries and a replica of the pyx glue; "
+        "histogram.pyx is observed through the installed build only",
     ]
-    level_note = ("partial: Hoare-partition correctness, spline prefilter exactness, permutation/combination "
-                  "distinctness and the special functions / LAPACK results are oracle-checked, not proved")
+    level_note = ("partial: the fff_array iterator's C-order (per-case correspondence + oracle), permutation/combination "
+                  "distinctness beyond validity (exhaustive oracle; C17), the n-D separability of the spline theorems "
+                  "(1-D proved, n-D decided exactly per case), special functions and LAPACK numerics are not proved")
     finding_keys = {
         "vector-div-multiplies": "labs.bindings.linalg.vector_div(x, y) returns x*y (linalg.pyx calls fff_vector_mul)",
+        "array-extrema-first-max": "fff_array_extrema leaves max = -inf when the first element visited is the maximum "
+                                   "(`else if`); fff_array_clamp inherits it (C API only; proposed_fixes/C16-array-extrema.patch)",
+        "dgesdd-factors-transposed": "fff_lapack_dgesdd returns U^T in U and V in Vt (A = U^T diag(s) Vt^T instead of the "
+                                     "documented A = U diag(s) Vt): the final transpositions are superfluous (C API only; "
+                                     "proposed_fixes/C16-lapack-svd-factors.patch)",
+        "inv-sym-wrong": "fff_lapack_inv_sym returns U^T S^-1 V^T, not the inverse, for n >= 3 (compensation for an older "
+                         "defect of dgesdd; C API only; proposed_fixes/C16-lapack-svd-factors.patch)",
     }
+
+    # ------------------------------------------------------------------
+    def translators(self):
+        """constants of cubic_spline.c and the flag table of fff_blas.c, regenerated from the source text"""
+        src, _ = c16_tables.lean_source(TieBroken)
+        return [("NipyVerif/Gen/C16Tables.lean", src)]
 
     # ------------------------------------------------------------------
     def generate(self, rng, tier):
@@ -379,6 +412,7 @@ class C16(PropertyCheck):
             cases.append({"kind": "lapack", "d": rng.choice([1, 2, 3, 4, 6]), "n2": rng.choice([1, 2, 3, 5]),
                           "K": rng.choice([[], [1], [3], [2, 2]]), "layout": rng.choice(["C", "F", "offset", "transposed"]),
                           "seed": S()})
+        cases += c16_views.generate(rng, dict(vvec=60, vmat=120, varr=120, vlap=60) if q else dict(vvec=1500, vmat=3000, varr=3000, vlap=1200))
         if not q:
             # exhaustive small domain named in the design: arrays of length <= 7 over {0,1,2}
             for L in range(1, 8):
@@ -479,11 +513,25 @@ class C16(PropertyCheck):
                 if fail is None and not qclose(v2, float(want[k]), sc):
                     fail = (f"fff_vector_quantile(fibre={before}, stride={stride}, r={r}, interp={int(interp)}) = {v2}, "
                             f"definition gives {want[k]}")
+                after2 = [float(t) for t in Xd2[tuple(sl)]]
+                if fail is None and sorted(after2) != sorted(before):
+                    fail = f"fff_vector_quantile does not permute the fibre: {before} -> {after2}"
+                # the same selection loop lives in fff_vector.c: value and permuted fibre against the model
+                if k < 3 and not interp and n > 1:
+                    exact2 = Fraction(r) * n
+                    if Fraction(float(np.float64(r) * n)) == exact2 and math.ceil(float(exact2)) < n:
+                        lines.append(f"pth {int(math.ceil(float(exact2)))} {plist(before)}")
+                        impl.append(("pth", v2, after2))
+                        tags.append("pth-fff")
             if k < 6:
                 exact = Fraction(r) * (n if not interp else n - 1)
                 if Fraction(float(np.float64(r) * (n if not interp else n - 1))) == exact:
                     lines.append(f"quantile {fr(r)} {int(interp)} {plist(before)}")
                     impl.append(("q", v))
+                    # the front end over the literal selection loops (_pth_element / _pth_interval): value and
+                    # the rearranged fibre the C leaves behind
+                    lines.append(f"qlit {fr(r)} {int(interp)} {plist(before)}")
+                    impl.append(("qlit", v, after))
                     if not interp and n > 1:
                         p = int(math.ceil(float(exact)))
                         if p < n:
@@ -495,6 +543,9 @@ class C16(PropertyCheck):
         if r in (0.0, 1.0):
             tags.append("ratio-edge")
         return self._res(lines, impl, fail, n >= 2, tags, mut and "_quantile:X")
+
+    def _views(self, c):
+        return c16_views.run(self, c)
 
     def _pthall(self, c):
         """exhaustive: every array of this length over {0,1,2}, every p; C (via quantile, interp=0) vs model"""
@@ -691,7 +742,7 @@ class C16(PropertyCheck):
                 call = lambda a, b, cc, d: lib.fff_blas_dsyrk(f_up(f0), f_tr(f1), al, a, be, d)
                 py = lambda: L.blas_dsyrk(f0, f1, al, mats[0], be, mats[2])
             else:
-                line = None
+                line = f"syr2k {f0} {f1} {fr(al)} {pm(A)} {pm(B)} {fr(be)} {pm(Cm)}"
                 call = lambda a, b, cc, d: lib.fff_blas_dsyr2k(f_up(f0), f_tr(f1), al, a, b, be, d)
                 py = lambda: L.blas_dsyr2k(f0, f1, al, mats[0], mats[1], be, mats[2])
         else:  # gemv (not exported to Python: rebuilt C only)
@@ -947,27 +998,82 @@ class C16(PropertyCheck):
                 rec = (np.take(rec, mir(idx - 1), ax) + 4 * rec + np.take(rec, mir(idx + 1), ax)) / 6
             if not np.allclose(rec, src0, rtol=0, atol=1e-9 * sc):
                 fail = f"cubic_spline_transform(shape={shape}, layout={c['layout']}): B-spline synthesis of the coefficients differs from the source by {np.abs(rec - src0).max()}"
-        # correspondence: off-grid points, all modes, against the model fed with the C coefficients
-        pts = []
-        for _ in range(6):
-            p = []
-            for s, m in zip(shape, modes):
-                dd = s - 1
-                lo, hi = (-1.5, dd + 1.5) if m != 2 else (-dd - 0.5, 2 * dd + 0.5)
-                u = rs.random_sample()
-                if u < 0.25:
-                    p.append(float(rs.randint(0, s)))
-                elif u < 0.4:
-                    p.append(float(rs.choice([-1.0, -0.5, dd + 0.5, dd + 1.0, -dd, 2.0 * dd, dd - 0.25])))
-                else:
-                    p.append(float(np.round((lo + (hi - lo) * rs.random_sample()) * 8) / 8))
-            pts.append(p)
+        # off-grid points (inside, outside on both sides, beyond the limits), all modes
+        pts = c16_spline.gen_points(rs, shape, modes, 10)
         vals = [fn(*p, coefv, *modes) for p in pts]
         line = (f"sample {fr(C23)} {plist(shape)} {plist(modes)} {plist(coef.ravel().tolist())} "
                 f"{len(pts)} " + " ".join(frs(p) for p in pts))
+        # oracle 3: sampling equals the definition  sum_k c[mirror(k)] beta3(x - k)  (tensor product,
+        # boundary modes as documented), on the C coefficients and - through SciPy's mirror spline of
+        # the samples - independently of them
+        if fail is None:
+            for p, v in zip(pts, vals):
+                w = c16_spline.sample_def(coef, p, modes)
+                if abs(v - w) > 1e-9 * sc:
+                    fail = (f"cubic_spline_sample{nd}d at {p} of a shape-{shape} array [{c['layout']}], modes "
+                            f"{[MODES[m] for m in modes]}: {v!r}, the definition sum_k c[mirror(k)] beta3(x-k) "
+                            f"gives {w!r}")
+                    break
+        if fail is None:
+            ws = c16_spline.scipy_def(src0, pts, modes)
+            for p, v, w in zip(pts, vals, ws):
+                if abs(v - w) > 1e-8 * sc:
+                    fail = (f"cubic_spline_transform + cubic_spline_sample{nd}d at {p} of a shape-{shape} array, modes "
+                            f"{[MODES[m] for m in modes]}: {v!r}, scipy.ndimage.map_coordinates(order=3, "
+                            f"mode='mirror') at the boundary-transformed point gives {w!r}")
+                    break
+        # oracle 4: mirror symmetry of the reflect mode about both ends of the grid
+        if fail is None:
+            for p in pts:
+                for ax, (s_, m) in enumerate(zip(shape, modes)):
+                    dd = s_ - 1
+                    if m != 2:
+                        continue
+                    for q in ([-p[ax]] if abs(p[ax]) <= dd else []) + \
+                             ([2 * dd - p[ax]] if 0 <= p[ax] <= 2 * dd else []):
+                        p2 = list(p); p2[ax] = float(q)
+                        a, b = fn(*p, coefv, *modes), fn(*p2, coefv, *modes)
+                        if abs(a - b) > 1e-9 * sc:
+                            fail = (f"cubic_spline_sample{nd}d (reflect) on a shape-{shape} array is not mirror "
+                                    f"symmetric: s({p}) = {a!r} but s({p2}) = {b!r}")
+                            break
+                    if fail:
+                        break
+                if fail:
+                    break
+        # oracle 5: cubic_spline_resample3d = sampling at the affinely transformed voxel coordinates
+        if nd == 3 and fail is None:
+            odims = [int(rs.randint(1, 4)) for _ in range(3)]
+            T = np.zeros((3, 4))
+            for i_ in range(3):
+                T[i_, i_] = float(rs.choice([1.0, 0.5, -1.0, 2.0, 1.25]))
+                T[i_, (i_ + 1) % 3] = float(rs.choice([0.0, 0.0, 0.25, -0.5]))
+                T[i_, 3] = float(rs.choice([0.0, 0.5, -0.75, 1.0, float(shape[i_] - 1), -1.5]))
+            out = np.full(odims, 7.0, dtype=str(rs.choice(["float64", "float64", "float32"])))
+            Tc = np.ascontiguousarray(T.ravel())
+            lib.cubic_spline_resample3d.restype = None
+            lib.cubic_spline_resample3d.argtypes = [C.py_object, C.py_object, C.c_void_p, C.c_int, C.c_int, C.c_int]
+            snap3 = Snapshot(src=src)
+            lib.cubic_spline_resample3d(out, src, Tc.ctypes.data, *modes)
+            mut = mut or snap3.changed()
+            for g in itertools.product(*[range(d_) for d_ in odims]):
+                q = (T[:, :3] @ np.array(g, dtype=float) + T[:, 3]).tolist()
+                w = c16_spline.sample_def(coef, q, modes)
+                if abs(float(out[g]) - w) > 1e-6 * sc:
+                    fail = (f"cubic_spline_resample3d(shape={shape}, Tvox={T.tolist()}, modes {[MODES[m] for m in modes]}) "
+                            f"at output voxel {list(g)} (source point {q}): {float(out[g])!r}, definition {w!r}")
+                    break
+            tags.append("resample3d")
         bx = [float(t) for t in np.round(rs.uniform(-2.5, 2.5, 5) * 16) / 16]
         lines = [line, f"basis {fr(C23)} {plist(bx)}"]
         impl = [("rats", vals, sc), ("rats", [lib.cubic_spline_basis(t) for t in bx], 1.0)]
+        # the prefilter in exact arithmetic: with the truncated constants of the C source (rationals) and with
+        # the exact pole sqrt(3)-2 in Q(sqrt 3) (the model also decides exactly that the coefficients
+        # reproduce the samples: flag 1)
+        if coef.size <= 256:
+            sp = f"{plist(shape)} {plist(src0.ravel().tolist())}"
+            lines += [f"cst {fr(Z1)} 0 {fr(CZ1)} 0 {sp}", f"cst -2 1 0 1/6 {sp}"]
+            impl += [("cst", coef.ravel().tolist(), sc, False), ("cst", coef.ravel().tolist(), sc, True)]
         # installed extension (pyx glue) on the same data: only where the embedded C is the tree's C
         if min(shape) >= 3 and all(st > 0 for st in coefv.strides):
             from nipy.algorithms.registration import _registration as reg
@@ -1059,6 +1165,18 @@ class C16(PropertyCheck):
                     g = float(f(x))
                     if not (abs(g - w) <= 1e-7 * max(1.0, abs(w))) and fail is None:
                         fail = f"{layer}({x!r}) = {g!r}, scipy.special gives {w!r}"
+        # recurrences of the definitions: ln Gamma(x+1) = ln Gamma(x) + ln x,  psi(x+1) = psi(x) + 1/x
+        for x in xs:
+            x = float(x)
+            if x > 1e3:
+                continue
+            d1 = lib.fff_gamln(x + 1.0) - lib.fff_gamln(x) - math.log(x)
+            d2 = lib.fff_psi(x + 1.0) - lib.fff_psi(x) - 1.0 / x
+            sc1 = max(1.0, abs(lib.fff_gamln(x)), abs(math.log(x)))
+            if not abs(d1) <= 1e-7 * sc1 and fail is None:
+                fail = f"fff_gamln({x + 1.0!r}) - fff_gamln({x!r}) - ln({x!r}) = {d1!r}: the recurrence of ln Gamma fails"
+            if not abs(d2) <= 1e-7 * max(1.0, 1.0 / x, abs(lib.fff_psi(x))) and fail is None:
+                fail = f"fff_psi({x + 1.0!r}) - fff_psi({x!r}) - 1/{x!r} = {d2!r}: the recurrence of the digamma function fails"
         return self._res([], [], fail, True, ["specfun"])
 
     # ---- Mahalanobis distances and singular values ---------------------------------------------
@@ -1137,6 +1255,22 @@ class C16(PropertyCheck):
             if math.isinf(v):
                 return f"impl=inf model={model_out}"
             return cmp_rats([v], model_out, 1e-12, 1e-12)
+        if kind == "qlit":
+            _, v, after = impl_obs
+            try:
+                head, arr = model_out.split(" | ")
+            except Exception:
+                return f"unparsable model output {model_out[:80]!r}"
+            if head.strip() == "inf":
+                if v != math.inf:
+                    return f"value impl={v} model=+inf"
+            else:
+                d = cmp_rats([v], head, 1e-12, 1e-12)
+                if d:
+                    return "value " + d
+            if [Fraction(t) for t in after] != parse_rats(arr):
+                return f"rearranged fibre impl={after} model={[float(t) for t in parse_rats(arr)]}"
+            return None
         if kind == "pth":
             _, v, after = impl_obs
             try:
@@ -1160,6 +1294,24 @@ class C16(PropertyCheck):
         if kind == "mat":
             flat = [v for row in impl_obs[1] for v in row]
             return cmp_rats(flat, model_out, 1e-12, 1e-9)
+        if kind == "cst":
+            _, vals, sc, exact = impl_obs
+            try:
+                flag, pa, pb = model_out.split(" | ")
+                A, B = parse_rats(pa), parse_rats(pb)
+            except Exception:
+                return f"unparsable model output {model_out[:80]!r}"
+            if len(A) != len(vals):
+                return f"length impl={len(vals)} model={len(A)}"
+            if exact and flag.strip() != "1":
+                return "with the exact pole the model's coefficients do not reproduce the samples exactly"
+            r3 = math.sqrt(3.0)
+            tol = (1e-9 if exact else 1e-11) * sc
+            for k, (v, a, b) in enumerate(zip(vals, A, B)):
+                m = float(a) + float(b) * r3
+                if abs(v - m) > tol:
+                    return f"coefficient {k}: impl={v!r} model={m!r}"
+            return None
         if kind == "rats":
             sc = impl_obs[2] if len(impl_obs) > 2 else 1.0
             return cmp_rats(impl_obs[1], model_out, 1e-11, 1e-11 * sc)
@@ -1167,6 +1319,9 @@ class C16(PropertyCheck):
 
     def shrink(self, case):
         k = case["kind"]
+        if k == "views":
+            yield from c16_views.shrink(case)
+            return
         if "shape" in case:
             sh = case["shape"]
             for i, s in enumerate(sh):
@@ -1199,6 +1354,8 @@ class C16(PropertyCheck):
     def classify(self, case, failure):
         if case.get("kind") == "vecops" and "linalg.vector_div =" in failure:
             return "vector-div-multiplies"
+        if case.get("kind") == "views":
+            return c16_views.known_key(failure)
         return None
 
 
